@@ -158,3 +158,15 @@ mutant("union_eq_mixed_true", ["C12", "C14"], [("src/arc_union.rs", "           
 mutant("arcinner_not_repr_c", ["C12", "C05", "C11"], [("src/arc.rs", "#[repr(C)]\npub(crate) struct ArcInner<T: ?Sized> {", "pub(crate) struct ArcInner<T: ?Sized> {")])
 benign("strip_mask_equivalent_const", [("src/arc_union.rs", "let ptr = ((self.p.as_ptr() as usize) & !0x1) as *const B;", "let ptr = ((self.p.as_ptr() as usize) & (usize::MAX - 1)) as *const B;")])
 benign("tag_by_add", [("src/arc_union.rs", "unsafe { Self::new(((Arc::into_raw(other) as usize) | 0x1) as *mut _) }", "unsafe { Self::new(((Arc::into_raw(other) as usize) + 1) as *mut _) }")])
+
+# ------------------------------------------------------------------ C13
+mutant("arc_send_needs_only_send", ["C13"], [("src/arc.rs", "unsafe impl<T: ?Sized + Sync + Send> Send for Arc<T> {}", "unsafe impl<T: ?Sized + Send> Send for Arc<T> {}")])
+mutant("thin_sync_drops_h", ["C13"], [("src/thin_arc.rs", "unsafe impl<H: Sync + Send, T: Sync + Send> Sync for ThinArc<H, T> {}", "unsafe impl<H, T: Sync + Send> Sync for ThinArc<H, T> {}")])
+mutant("unique_sync_for_send", ["C13"], [("src/unique_arc.rs", "unsafe impl<T: ?Sized + Sync> Sync for UniqueArc<T> {}", "unsafe impl<T: ?Sized + Send> Sync for UniqueArc<T> {}")])
+mutant("borrow_arc_static", ["C13"], [("src/arc.rs", "    pub fn borrow_arc(&self) -> ArcBorrow<'_, T> {", "    pub fn borrow_arc(&self) -> ArcBorrow<'static, T> {")])
+mutant("arcborrow_get_static", ["C13"], [("src/arc_borrow.rs", "    pub fn get(&self) -> &'a T {\n        unsafe { &*self.0.as_ptr() }", "    pub fn get<'b>(&self) -> &'b T {\n        unsafe { &*self.0.as_ptr() }")])
+mutant("with_arc_leaky_signature", ["C13"], [("src/arc_borrow.rs", "    pub fn with_arc<F, U>(&self, f: F) -> U\n    where\n        F: FnOnce(&Arc<T>) -> U,\n    {", "    pub fn with_arc<'s, F, U>(&'s self, f: F) -> U\n    where\n        F: FnOnce(&'s Arc<T>) -> U,\n    {"), ("src/arc_borrow.rs", "        let transient = unsafe { ManuallyDrop::new(Arc::from_raw(self.0.as_ptr())) };\n\n        // Expose the transient Arc to the callback, which may clone it if it wants\n        // and forward the result to the user\n        f(&transient)\n    }\n\n    /// Similar to deref", "        let transient = unsafe { ManuallyDrop::new(Arc::from_raw(self.0.as_ptr())) };\n        f(unsafe { &*(&*transient as *const Arc<T>) })\n    }\n\n    /// Similar to deref"), ("src/arc_borrow.rs", "Self::with_arc(this, |arc| Arc::strong_count(arc))", "this.with_arc(|arc| Arc::strong_count(arc))")])
+mutant("arc_phantom_not_owning_under_eyepatch", ["C13"], [("src/arc.rs", "    pub(crate) phantom: PhantomData<T>,\n}", "    pub(crate) phantom: PhantomData<*const T>,\n}")], features=["--all-features"], toolchain="+nightly")
+benign("offsetarc_phantom_ptr_harmless_without_may_dangle", [("src/offset_arc.rs", "    pub(crate) phantom: PhantomData<T>,\n}\n\nunsafe impl<T: Sync + Send> Send for OffsetArc<T> {}", "    pub(crate) phantom: PhantomData<*const T>,\n}\n\nunsafe impl<T: Sync + Send> Send for OffsetArc<T> {}")])
+mutant("arcunion_extra_send_impl_bounds_swapped", ["C13"], [("src/arc_union.rs", "unsafe impl<A: Sync + Send, B: Send + Sync> Send for ArcUnion<A, B> {}", "unsafe impl<A: Sync + Send, B: Send> Send for ArcUnion<A, B> {}")])
+mutant("get_mut_returns_longer_lifetime", ["C13"], [("src/arc.rs", "    pub fn get_mut(this: &mut Self) -> Option<&mut T> {", "    pub fn get_mut<'x, 'y>(this: &'x mut Self) -> Option<&'y mut T> {")])
